@@ -708,6 +708,10 @@ impl ClusterHandler for NocHandler {
 
         let mut persist = FabricPersist::new(ctx.kv());
 
+        // Whatever the store says, once the fabric is gone from this node's tables what else belongs
+        // to it (subscriptions, bindings, ...) has to go as well, before a store error is reported
+        let mut store_result = Ok(());
+
         let (status, opener_fabric_removed) = ctx.exchange().with_state(|state| {
             let sess = ctx.exchange().id().session(&mut state.sessions);
 
@@ -746,7 +750,7 @@ impl ClusterHandler for NocHandler {
                 // Note that since we might have removed our own session, the exchange
                 // will terminate with a "NoSession" error, but that's OK and handled properly
 
-                persist.remove(fab_idx)?;
+                store_result = persist.remove(fab_idx);
 
                 // Matter Core spec: if the removed fabric is the
                 // one that installed the TrustedTimeSource, the device SHALL
@@ -806,6 +810,8 @@ impl ClusterHandler for NocHandler {
             // since the broadcast runs the handlers inline.
             ctx.notify_fabric_removed(fab_idx);
         }
+
+        store_result?;
 
         // RemoveFabric mutates NOCs, Fabrics, CommissionedFabrics, TrustedRootCerts
         ctx.notify_own_cluster_changed();
